@@ -661,6 +661,11 @@ func (s *Server) Invoke(responseWriter http.ResponseWriter, invoke *interop.Invo
 		reserveResp, err := s.Reserve("", "", "")
 		if err != nil {
 			log.Infof("ReserveFailed: %s", err)
+			if reserveResp == nil {
+				// no reservation was made (e.g. another invoke is in flight): report it instead of using the nil response
+				releaseErrChan <- err
+				return
+			}
 		}
 
 		invoke.DeadlineNs = fmt.Sprintf("%d", metering.Monotime()+reserveResp.Token.FunctionTimeout.Nanoseconds())
